@@ -560,7 +560,7 @@ func c17binding(c *eng.Ctx, F *c17fields) {
 		in := f.Params[h.input]
 		tpl0 := `^op:keysutil\.\(\*Policy\)\.getTemplateParts\(\)#0\[0\]$`
 		tpl1 := `^op:keysutil\.\(\*Policy\)\.getTemplateParts\(\)#0\[1\]$`
-		inP := `^param:` + in.Name() + `$`
+		inP := `^param:` + eng.VarName(in) + `$`
 		hp, tp, sp, at := c17one(f, `^strings\.HasPrefix$`), c17one(f, `^strings\.TrimPrefix$`), c17one(f, `^strings\.SplitN$`), c17one(f, `^strconv\.Atoi$`)
 		c.Clause("R5", "C17.1")
 		verAllowed := []string{`^call:strconv\.Atoi#0$`}
@@ -873,8 +873,8 @@ func c17aead(c *eng.Ctx, F *c17fields) {
 
 	enc, dec := c.Fn("keysutil.(*Policy).SymmetricEncryptRaw"), c.Fn("keysutil.(*Policy).SymmetricDecryptRaw")
 	if enc != nil && dec != nil && len(enc.Params) == 5 && len(dec.Params) == 4 {
-		keyE, ptE, optsE := enc.Params[2].Name(), enc.Params[3].Name(), enc.Params[4].Name()
-		keyD, ctD, optsD := dec.Params[1].Name(), dec.Params[2].Name(), dec.Params[3].Name()
+		keyE, ptE, optsE := eng.VarName(enc.Params[2]), eng.VarName(enc.Params[3]), eng.VarName(enc.Params[4])
+		keyD, ctD, optsD := eng.VarName(dec.Params[1]), eng.VarName(dec.Params[2]), eng.VarName(dec.Params[3])
 		seal, open := c17one(enc, `^<crypto/cipher\.AEAD>\.Seal$`), c17one(dec, `^<crypto/cipher\.AEAD>\.Open$`)
 		c.Clause("R5", "C17.2")
 		if seal == nil || open == nil {
@@ -1075,7 +1075,7 @@ func c17aead(c *eng.Ctx, F *c17fields) {
 	// a caller-supplied nonce reaches the AEAD only for convergent version 1 (which the raw call refuses)
 	if f := c.Fn("keysutil.(*Policy).EncryptWithFactory"); f != nil && len(f.Params) >= 4 {
 		c.Clause("R2", "C17.2")
-		nn := f.Params[3].Name()
+		nn := eng.VarName(f.Params[3])
 		c.Cut(f, "SymmetricEncryptRaw", instrsOf(eng.Calls(f, `^keysutil\.\(\*Policy\)\.SymmetricEncryptRaw$`)),
 			eng.Or(eng.G(f, `^0 < len\(`+nn+`\)$`, false), eng.G(f, `^keysutil\.\(\*Policy\)\.convergentVersion\(\) == 1$`, true)), nil)
 	}
@@ -1339,7 +1339,7 @@ func c17durable(c *eng.Ctx, F *c17fields) {
 			}
 			if j := c17one(f, `^path\.Join$`); j != nil {
 				c.Clause("R12", "C17.3")
-				rn := f.Params[0].Name()
+				rn := eng.VarName(f.Params[0])
 				if s := c17joinArgs(j); s == rn+`.StoragePrefix,"policy",`+rn+`.Name` {
 					c.OK(f, "const{policy path}", j.Pos(), s)
 				} else {
